@@ -5,7 +5,7 @@ package main
 // Two case kinds:
 //
 //	L <src-hex>              result: "pos,line,col" of every token of parser.LexToList (space separated)
-//	E <P|R|X> <src-hex> <off> [<calloff>]
+//	E <P|R|X|A|Y> <src-hex> <off> [<calloff>]
 //	                         a program with a planted parse (P) / runtime (R) error, or a runtime error the
 //	                         program catches itself (X), whose offending token starts at byte offset <off>
 //	                         ("eof": the EOF token); result: see c18Err
@@ -105,6 +105,15 @@ func c18Err(kind, src, off, calloff string) string {
 		}
 		return fmt.Sprintf("%d,%d %s", pe.Line, pe.Pos, c18Text(pe.Error()))
 	}
+	if kind == "A" || kind == "Y" {
+		// the code as it is answers without a position; a repaired tree answers like kinds R / X
+		k2 := map[string]string{"A": "R", "Y": "X"}[kind]
+		res := c18Err(k2, src, off, calloff)
+		if strings.HasPrefix(res, "OTHER *errors.errorString") || res == "<nil>,<nil>" {
+			return "unpositioned"
+		}
+		return res
+	}
 	if kind == "X" {
 		c18Rec = nil
 		_, err := evalProgram(src, newGlobalScope(), &memLog{})
@@ -162,6 +171,9 @@ func c18Err(kind, src, off, calloff string) string {
 var c18Small = []string{
 	"a", "1", "+", " ", "\n", "#c", "/*c*/", "/*\n*/", `"s"`, "r\"x\ny\"", "\"x\ny\"", "\r", "\t", "é", "\xff",
 	`"\\"`, "'", "*/", ";",
+	// bare openers and what may stand inside a comment / raw string or at offset 0: the content of
+	// comments and strings is part of the quantifier ("any mix of …"), not only complete literals
+	"/*", "r\"", "#", "\\", "!", "\r\n", "\"", "\\\n",
 }
 
 // atoms of the random part
@@ -171,7 +183,7 @@ var c18Atoms = []string{
 	// symbols
 	"+", "-", "*", "/", "//", ":=", ">=", "(", ")", "[", "]", "{", "}", ".", ",", ";", ":", "=", "!", "?", "@",
 	// blanks
-	" ", " ", "  ", "\t", "\n", "\n", "\n\n", "\r", "\r\n", "\v", "\f", "\x00", "\x7f", "\u0085", " ", " ", "　",
+	" ", " ", "  ", "\t", "\n", "\n", "\n\n", "\r", "\r\n", "\v", "\f", "\x00", "\x7f", "\u0085", "\u2029", "\ufeff", " ", " ", "　",
 	// strings
 	`"s"`, `'s'`, `r"s"`, `r's'`, `""`, `"a\nb"`, `"a\\"`, `"a\\\""`, `'it"s'`, "r\"l1\nl2\"", "r'l1\n\nl3'", "r\"\n\"",
 	"\"x\ny\"", "'x\ny'", `"\q"`, `"é"`, "r\"é\nü\"", `"`, `'`, `r"`, "\"\n", `"\`, `\`,
@@ -238,6 +250,13 @@ var c18Plants = []c18Plant{
 	{"R", "a := -\"s\"", 6, false},
 	{"R", "a := [1, # c\n nosuch()]", 14, false},
 	{"R", "a := r\"x\ny\" + 1", 5, false},
+	// failed variable / container access and a failed import (kind A, caught in try: Y): bare errors
+	// without any position — known finding access-errors-unpositioned; the position asked for is that
+	// of the identifier / the import token (what fixes/C18-access-errors-positioned.patch would give)
+	{"A", "xs := [1, 2]; y := xs[5]", 19, false},
+	{"A", "un := 1; y := un.a", 14, false},
+	{"A", "un := 1\nun[0]", 8, false},
+	{"A", "import \"nofile\" as imp", 0, false},
 }
 
 // c18Plant1 puts a plant into random well-formed surroundings. Runtime plants come in four
@@ -251,6 +270,9 @@ func c18Plant1(g *Gen, pl c18Plant) string {
 	shape := 0
 	if pl.kind == "R" {
 		shape = g.R.Intn(4)
+	} else if pl.kind == "A" {
+		// not inside a called function: there the interpreter re-wraps a bare error at the CALL token
+		shape = 2 * g.R.Intn(2)
 	}
 	inFunc, inTry := shape == 1 || shape == 3, shape >= 2
 	if inFunc {
@@ -282,7 +304,7 @@ func c18Plant1(g *Gen, pl c18Plant) string {
 	}
 	kind := pl.kind
 	if inTry {
-		kind = "X"
+		kind = map[string]string{"R": "X", "A": "Y"}[pl.kind]
 	}
 	if !pl.last {
 		switch g.R.Intn(4) {
@@ -318,6 +340,8 @@ func init() {
 			// corpus: the known finding, the repaired string end, position-relevant shapes
 			for _, s := range []string{"a # c\nb", "a # c\n\nb", "a # c\n  b c\nd", "# c\n\"s\" x", "# c\n/* \n */ x", "# c\n# d\nx",
 				"a \"x\\\\\" b", "r\"a\nb\" c\nd", "/* a\nb */ c\nd", "a\r\nb", "a\n", "a\n\n", "", "\n", "\"a\nb\" c", "\"abc", "/* x\n",
+				"#!x\na", "#!/usr/bin/env ecal\na := 1", "r\"a\\\nb\" c", "r\"a\r\nb\" c", "/* a\r\nb */ c", "/*\rx*/ a", "\ufeffa", "a\u2029b", "r\"\f\n\v\" a",
+				"r'a\\\n\\\nb' c\nd", "/* \\\n */ a", "# \\\na", "\u2028a", "a\u0085b", "r\"\u2029\n\" a",
 				"é b\nü c", "a\n\xffb", "İ a", "İf a\nb", "K2 a", "aİ\nb", "1e+308 a", "1e+309 a", "1.7976931348623158e+308 a", "1.7976931348623159e+308 a", "0e+999999999 a",
 				"1e+0000000000001 a", "1e+311e5 a", "1₅ a", "٣ a", "0.0000001e+315 a", "0.0000001e+316 a", "17976931348623158" + strings.Repeat("0", 292) + " a",
 				"17976931348623159" + strings.Repeat("0", 292) + " a", "a /*\n*/ # c\nb /* # \n */ c", "#", "#\n", "# c", "a#c\r\nb"} {
@@ -383,6 +407,10 @@ func init() {
 				lo, _ := strconv.Atoi(f[1])
 				hi, _ := strconv.Atoi(f[2])
 				return c18Sweep(lo, hi)
+			case len(f) == 5 && f[0] == "B2":
+				o1, _ := strconv.Atoi(f[2])
+				o2, _ := strconv.Atoi(f[3])
+				return c18BreakMulti(unhx(f[1]), []int{o1, o2}, f[4])
 			case len(f) == 3 && f[0] == "B":
 				off, _ := strconv.Atoi(f[2])
 				return c18Break(unhx(f[1]), off)
